@@ -10,9 +10,9 @@ checks = {
  'C02': dict(cat='exploration', tech='runtime monitoring: token/prepared-id/kind identity oracle over recorded histories with unique tokens',
    text='Every reply observed (tens of thousands per quick run) is matched to the request sent on that (client, stream) through the unique token the backend echoes; covers equal stream ids on many clients, permuted backend replies, >10x recycling of all 2048 backend stream ids, exhaustion bursts, failover storms, concurrent re-prepares with a widened window and a heartbeat reply that arrives after its stream id has been reused.', ref='2/C02'),
  'C03': dict(cat='exploration', tech='runtime monitoring: byte comparison of raw frames recorded at the client and backend boundaries (nothing decoded)',
-   text='3000 (quick) / 150000 (thorough) generated request frames over version x compression x opcode x option flags x header decorations x size class x content class, each answered with a generated response of every RESULT kind / ERROR code with tracing, warnings, payload; both directions compared byte for byte except the stream id; plus retry storms and deterministic retry-twice-with-pipelined-requests cases in which every attempt reaching a backend must carry its own request's bytes.', ref='2/C03'),
+   text='3000 (quick) / 150000 (thorough) generated request frames over version x compression x opcode x option flags x header decorations x size class x content class, each answered with a generated response of every RESULT kind / ERROR code with tracing, warnings, payload; both directions compared byte for byte except the stream id; plus retry storms and deterministic retry-twice-with-pipelined-requests cases in which every attempt reaching a backend must carry the bytes of its own request.', ref='2/C03'),
  'C04': dict(cat='fault_enumeration', tech='runtime monitoring: fault enumeration with an oracle on the backend arrival log (no arrival k+1 unless outcome k cannot have applied the request) and on the final client frame',
-   text='Nine classes of requests that are not positively idempotent by construction (20 statement forms; prepared here / by another client / never through the proxy / forgotten by the host; batches; graph payload) x every complete outcome sequence for 1-2 hosts and PRNG walks for 3-4, (outcomes include error frames the protocol library cannot decode), plus connection loss after a partial reply, before the request is read, and by the proxy's own close (idle timeout, removed host).', ref='2/C04'),
+   text='Nine classes of requests that are not positively idempotent by construction (20 statement forms; prepared here / by another client / never through the proxy / forgotten by the host; batches; graph payload) x every complete outcome sequence for 1-2 hosts and PRNG walks for 3-4, (outcomes include error frames the protocol library cannot decode), plus connection loss after a partial reply, before the request is read, and by a close the proxy performs itself (idle timeout, removed host).', ref='2/C04'),
  'C05': dict(cat='fault_enumeration', tech='runtime monitoring: fault enumeration of per-attempt outcomes against an executable model of the documented policy',
    text='Exhaustive enumeration of the complete outcome sequences of the documented decision tree for 1-3 hosts (quick) / 1-4 hosts (thorough) x request kind x idempotency class, plus PRNG walks for 3-4 hosts; every observed attempt trace (host order, outcome) and final client frame must equal the model. The four decision functions are driven over all retry counts 0-4 x field grids. Targeted: connection dying between registration and write, same-host retry on a removed host, each slot of a two-connection pool lost in turn.', ref='2/C05'),
  'C06': dict(cat='exploration', tech='runtime monitoring of a pure function: PRNG grammar-based generation with ground truth by construction, metamorphic re-spelling oracle, hostile-input totality oracle in crash-isolated child processes',
@@ -34,7 +34,7 @@ checks = {
  'C14': dict(cat='exploration', tech='runtime monitoring: exactly-once counting of uniquely identified events over recorded client frames, sentinel-event logical barrier',
    text='Histories of connect/register(subsets)/disconnect with bursts of schema, topology and status events, concurrent register/disconnect during bursts, control-connection failover between bursts (also after a failed refresh), bursts followed at once by the end of the control connection, zombie clients and two proxies on one backend; per (client, event id) delivery counts are compared with must/may/never target sets.', ref='2/C14'),
  'C15': dict(cat='exploration', tech='runtime monitoring: set-model oracle over exhaustively enumerated event histories; porcupine linearizability check of recorded concurrent histories',
-   text='All well-formed bootstrap/add/remove histories over <=5 hosts up to length 7 (quick) / 9 (thorough) with fresh, held and partially consumed plans; counter-wrap via the tag-guarded preset and, in thorough, 2^32+10 real NewQueryPlan calls; concurrent histories checked with porcupine against a 15-line model; end to end: topology sequences announced through a real control connection (some refreshes failing), plans of the proxy's load balancer compared with the backend's membership.', ref='2/C15'),
+   text='All well-formed bootstrap/add/remove histories over <=5 hosts up to length 7 (quick) / 9 (thorough) with fresh, held and partially consumed plans; counter-wrap via the tag-guarded preset and, in thorough, 2^32+10 real NewQueryPlan calls; concurrent histories checked with porcupine against a 15-line model; end to end: topology sequences announced through a real control connection (some refreshes failing), plans of the load balancer inside the proxy compared with the membership the backend lists.', ref='2/C15'),
  'C16': dict(cat='fault_enumeration', tech='runtime monitoring: backend-side observation of refresh/reconnect events, recording ReconnectPolicy, bounds oracle on the backoff calculator, outage/readiness sampled at known states',
    text='Topology sequences (add/remove/restart, failed USE earlier) with routing checked after each observable refresh; kill/mute faults on pooled and control connections, single and simultaneous, muted connections with requests in flight (verdict by answered client round trips); backoff calculator grid; OutageDuration() and /readiness (through proxy.Run) at states the harness knows.', ref='2/C16'),
  'C17': dict(cat='exploration', tech='runtime monitoring of the real binary as a subprocess: liveness + canary clients as oracle, stderr scanned for panic/fatal, hostile inputs logged before sending',
